@@ -198,7 +198,7 @@ DeliverDKGResult(s, tx) ==
                   IN Res(s2, CodeOk, <<EonStartedEvent(s2.eon, d.cfg)>>)
            : o \in OutcomeSet(v.votes, Len(v.cands), d.cfg.thr) }
 
-BadList(tx) == tx.bad \in {"badAddrLen", "dupAddr", "lenMismatch"}
+BadList(tx) == tx.bad \in {"badAddrLen", "dupAddr", "lenMismatch"} \/ ~NoDup(tx.to)
 
 DeliverPolyEval(s, tx) ==
     IF BadList(tx) THEN {Res(s, CodeError, <<>>)}
@@ -267,13 +267,17 @@ NonceUsed(s, a, n) == InSeq(s.nonces[a], n)
 (* app.DeliverTx *)
 DeliverTx(s, tx) ==
     IF tx.k = "garbage" THEN {Res(s, CodeError, <<>>)}
+    (* "forged": the 65 signature bytes of an earlier transaction of tx.s in front of a different
+       payload (a config vote). The signature does not cover the payload: the recovered signer is
+       some address outside the universe, whose vote is refused. *)
+    ELSE IF tx.k = "forged" THEN {Res(s, CodeError, <<>>)}
     ELSE IF tx.k = "wrongchain" THEN {Res(s, CodeError, <<>>)}
     ELSE IF NonceUsed(s, tx.s, tx.n) THEN {Res(s, CodeError, <<>>)}
     ELSE DeliverMessage([s EXCEPT !.nonces[tx.s] = AddSorted(@, tx.n)], tx)
 
 (* app.CheckTx; only the mempool part of the state changes *)
 CheckTx(s, tx) ==
-    IF tx.k \in {"garbage", "wrongchain"} THEN Res(s, 1, <<>>)
+    IF tx.k \in {"garbage", "wrongchain", "forged"} THEN Res(s, 1, <<>>)
     ELSE IF NonceUsed(s, tx.s, tx.n) THEN Res(s, 1, <<>>)
     ELSE IF ~s.ctMembers[tx.s] THEN Res(s, 1, <<>>)
     ELSE IF s.ctCounts[tx.s] >= MaxTxsPerBlock THEN Res(s, 1, <<>>)
